@@ -601,9 +601,34 @@ class Gen:
             if vs and r.random() < 0.5:
                 return ['var', r.choice(vs)]
             return ['seq'] + [['int', r.randint(0, 5)] for _ in range(r.choice([0, 1, 2, 3, 3]))]
-        k = r.randrange(18)
-        if self.scope_only and k in (5, 6, 7, 8, 9, 10):
+        k = r.randrange(19)
+        if self.scope_only and k in (5, 6, 7, 8, 9, 10, 18):
             k = r.choice([2, 3, 4, 11, 12, 13, 14, 16, 17])
+        if k == 18 and self.no_partial:
+            k = 2
+        if k == 18:
+            # a partial application of a built-in function applied partially again, the first one used afterwards
+            self.features.add('builtin-partial-reused')
+            s1, s2, s3 = [self.gen_S(env, 0) for _ in range(3)]
+            i1, i2 = self.gen_I(env, 0), self.gen_I(env, 0)
+            which = r.randrange(3)
+            if which == 0:
+                first = ['bi', 'insert-before', ['?'], ['?'], ['?']]
+                second = ['call', ['var', 'pp'], [['?'], i1, ['?']]]
+                use_q = ['call', ['var', 'qq'], [s1, s2]]
+                use_p = ['call', ['var', 'pp'], [s3, i2, s1]]
+            elif which == 1:
+                first = ['bi', 'remove', ['?'], ['?']]
+                second = ['call', ['var', 'pp'], [s1, ['?']]]
+                use_q = ['call', ['var', 'qq'], [i1]]
+                use_p = ['call', ['var', 'pp'], [s2, i2]]
+            else:
+                first = ['bi', 'index-of', ['?'], ['?']]
+                second = ['call', ['var', 'pp'], [['?'], i1]]
+                use_q = ['call', ['var', 'qq'], [s1]]
+                use_p = ['call', ['var', 'pp'], [s2, i2]]
+            order = r.choice([[use_q, use_p], [use_p, use_q], [use_q, use_p, use_q]])
+            return ['let', 'pp', first, ['let', 'qq', second, ['seq'] + order]]
         if k in (16, 17):
             # a binder whose result is only partly consumed (exists/empty/head/some), then the same name is read again
             outer = [n for n, t in sorted(env.items()) if t == 'I' and not n.startswith('e')]
